@@ -173,9 +173,26 @@ func c17Token(c *vk.Case, tok []byte, viaJSON bool) {
 			if viaJSON {
 				err = gojson.Unmarshal(tok, &v)
 			} else {
-				err = v.UnmarshalJSON(append([]byte(nil), tok...))
+				// the caller owns its buffer: decoding must not change it, and the decoded value must not change when
+				// the caller reuses the buffer afterwards (a receive buffer is refilled by the next message)
+				in := append([]byte(nil), tok...)
+				err = v.UnmarshalJSON(in)
+				if !bytes.Equal(in, tok) {
+					c.Violate("bytes:input-modified", map[string]any{"token": string(tok), "input_after": string(in), "prefill": prefill}, "%s changed the caller's input %q to %q", name, tok, in)
+				}
+				if err == nil {
+					before := append([]byte(nil), v...)
+					for i := range in {
+						in[i] = 'Z'
+					}
+					c.Obs("bytes_ownership_checked", 1)
+					if !bytes.Equal(before, v) {
+						c.Violate("bytes:value-aliases-input", map[string]any{"token": string(tok), "value": hex.EncodeToString(before), "after_input_reuse": hex.EncodeToString(v), "prefill": prefill},
+							"the value %s decoded from %q changed to %x when the caller overwrote its input buffer", name, tok, []byte(v))
+					}
+				}
 			}
-			return outcome{err: err, b: []byte(v)}
+			return outcome{err: err, b: append([]byte(nil), v...)}
 		})
 		if ok && str0x {
 			switch {
@@ -245,6 +262,26 @@ func c17Run(c *vk.Case) {
 					c17Token(c, tok, true)
 				}
 				n++
+			}
+		}
+		if c.Index == 0 {
+			// every byte value at every position of valid quantities and byte strings (control bytes, high bytes,
+			// characters next to the digit ranges): only the 22 hex digits may be accepted there
+			for _, base := range []string{"1", "10", "abc", "0123456789abcdef", "fedcba9876543210ff", "00"} {
+				for pos := 0; pos < len(base); pos++ {
+					for b := 0; b < 256; b++ {
+						if b == '"' || b == '\\' {
+							continue // ends or escapes the JSON string: another token shape (covered by the alphabet)
+						}
+						body := []byte(base)
+						body[pos] = byte(b)
+						tok := append(append([]byte(`"0x`), body...), '"')
+						c17Token(c, tok, false)
+						c17Token(c, tok, true)
+						n += 2
+						c.Obs("byte_sweep_tokens", 2)
+					}
+				}
 			}
 		}
 		c.Obs("tokens", n)
